@@ -43,8 +43,17 @@ def order_preserving(rng, levels, perm):
 def generate(ctx):
     n = ctx.budget(16000, 1000000)
     nperm = 3 if ctx.tier == "quick" else 6
-    for _ in range(n):
-        case, meta = gen.gen_case(ctx.rng, percall=True)
+    shaped = []
+    idx = 0
+    for rep in range(1 if ctx.tier == "quick" else 12):
+        for m_ in MODEL_NAMES:
+            for k_ in (5, 6, 7, 8):
+                idx += 1
+                if idx % ctx.nshards == ctx.shard:
+                    # every tie-group composition of k_ teams x systematic team-size patterns
+                    shaped.extend(gen.shape_cases(ctx.rng, m_, k_))
+    for it in range(n + len(shaped)):
+        case, meta = shaped[it - n] if it >= n else gen.gen_case(ctx.rng, percall=True)
         k = len(case["teams"])
         part = KIND[case["model"]] in ("BTP", "TMP")
         perms = []
